@@ -6,6 +6,7 @@ import (
 	"encoding/json"
 	"fmt"
 	"testing"
+	"time"
 
 	"github.com/bilibili/smgo/sm2"
 	"github.com/bilibili/smgo/sm3"
@@ -47,7 +48,10 @@ func c17sm2Scenarios() []*sched.Scenario {
 		// a second, different private key for the third signer (state cached per key would be exposed)
 		d2 := b32(modN(bi(vx.Fill("c17d2", 32))))
 		share(x, "priv2", d2)
-		sign2 := func() string { a, b, err := sm2.SignHashed(stream(k2), d2, ee); return fmt.Sprintf("%x %x %v", a, b, err) }
+		sign2 := func() string {
+			a, b, err := sm2.SignHashed(stream(k2), d2, ee)
+			return fmt.Sprintf("%x %x %v", a, b, err)
+		}
 		return [][]sched.Op{{{"SignHashed", sign(k1)}, {"VerifyHashed", verify}}, {{"VerifyHashed", verify}, {"DerivePublic", derive}, {"SignHashed", sign(k2)}}, {{"DerivePublic", derive}, {"SignHashed2", sign2}}}
 	}})
 	out = append(out, &sched.Scenario{Name: "S5-za-signza-sm3", Build: func(x *sched.Exec) [][]sched.Op {
@@ -90,6 +94,7 @@ func TestVX_C17_SM2(t *testing.T) {
 		bound, capS = 3, 1500000
 	}
 	scs := c17sm2Scenarios()
+	c17budget()
 	if raw, ok := vx.Replay("sched-sm2"); ok {
 		var c c17case2
 		json.Unmarshal(raw, &c)
@@ -145,4 +150,13 @@ func TestVX_C17_SM2_Race(t *testing.T) {
 		}
 		r.Sample(map[string]interface{}{"scenario": s.Name, "iterations": iters})
 	}
+}
+
+// c17budget gives the schedule exploration a wall-clock budget (a cap on work, reported as exhaustive:false when hit).
+func c17budget() {
+	secs := 100.0
+	if vx.Thorough() {
+		secs = 1200
+	}
+	sched.Deadline = time.Now().Add(time.Duration(secs * float64(time.Second)))
 }
